@@ -105,6 +105,9 @@ Section Conservation.
   Lemma run_snoc evs e : run infer (evs ++ [e]) = step infer (run infer evs) e.
   Proof. unfold run. rewrite fold_left_app. reflexivity. Qed.
 
+  Lemma runC_n n0 evs : InvC (all_jobs evs) (run_from infer n0 evs).
+  Proof. apply (runC_from evs [] (dstart n0, tinit)). left. repeat split. Qed.
+
   Lemma ends_with_flush_inv evs : ends_with_flush evs = true -> exists evs' new, evs = evs' ++ [(new, true)].
   Proof.
     unfold ends_with_flush. intros H. destruct (rev evs) as [|[new f] t] eqn:E; [discriminate|]. subst f.
@@ -112,21 +115,29 @@ Section Conservation.
   Qed.
 
   (* after a search() call (its last dump is forced) every finished job has its row *)
-  Lemma run_complete evs : ends_with_flush evs = true ->
-    let s := run infer evs in
+  Lemma run_complete_from n0 evs : ends_with_flush evs = true ->
+    let s := run_from infer n0 evs in
     pending (fst s) = []
     /\ ((snd s = (None, []) /\ all_jobs evs = [])
         \/ exists h, fst (snd s) = Some h /\ In CId h
              /\ map (cell_at h CId) (snd (snd s)) = map (fun j => Num (jid j)) (all_jobs evs)).
   Proof.
     intros H. destruct (ends_with_flush_inv evs H) as (evs' & new & ->).
-    cbn zeta. assert (Hp : pending (fst (run infer (evs' ++ [(new, true)]))) = []).
-    { rewrite run_snoc. apply (step_flush_empties (all_jobs evs')). apply runC. }
+    cbn zeta. assert (Hp : pending (fst (run_from infer n0 (evs' ++ [(new, true)]))) = []).
+    { unfold run_from. rewrite fold_left_app. cbn [fold_left]. apply (step_flush_empties (all_jobs evs')). apply runC_n. }
     split; [exact Hp|].
-    destruct (runC (evs' ++ [(new, true)])) as [(Hs & Hc & Ht & Hpp)|(Hs & h & Hc & Hh & Hid & Hpp & Hrows)].
+    destruct (runC_n n0 (evs' ++ [(new, true)])) as [(Hs & Hc & Ht & Hpp)|(Hs & h & Hc & Hh & Hid & Hpp & Hrows)].
     - left. split; [exact Ht|]. rewrite <- Hpp. exact Hp.
     - right. exists h. auto.
   Qed.
+
+  Lemma run_complete evs : ends_with_flush evs = true ->
+    let s := run infer evs in
+    pending (fst s) = []
+    /\ ((snd s = (None, []) /\ all_jobs evs = [])
+        \/ exists h, fst (snd s) = Some h /\ In CId h
+             /\ map (cell_at h CId) (snd (snd s)) = map (fun j => Num (jid j)) (all_jobs evs)).
+  Proof. exact (run_complete_from None evs). Qed.
 End Conservation.
 
 (* ---------- 2. faithfulness of the repaired dump ---------- *)
@@ -305,12 +316,20 @@ Section Faithful.
       rewrite app_assoc. apply IH; try assumption. apply Forall_app. split; assumption.
   Qed.
 
-  Lemma runF evs : (match k with Scalar => True | Vec _ => hdr_hyp [] evs = true end) ->
-    Forall (consistent k) (all_jobs evs) -> InvF (all_jobs evs) (run infer_fixed evs).
+  Lemma runF_n n0 evs : weakn k n0 -> (match k with Scalar => True | Vec _ => hdr_hyp [] evs = true end) ->
+    Forall (consistent k) (all_jobs evs) -> InvF (all_jobs evs) (run_from infer_fixed n0 evs).
   Proof.
-    intros Hh Hall. apply (runF_from evs [] (dinit, tinit)); try assumption.
-    - left. cbn. repeat split. left. reflexivity.
+    intros Hn Hh Hall. apply (runF_from evs [] (dstart n0, tinit)); try assumption.
+    - left. cbn. repeat split. exact Hn.
     - unfold hh. destruct k; [exact I|]. intros _. exact Hh.
     - constructor.
   Qed.
+
+  Lemma runF evs : (match k with Scalar => True | Vec _ => hdr_hyp [] evs = true end) ->
+    Forall (consistent k) (all_jobs evs) -> InvF (all_jobs evs) (run infer_fixed evs).
+  Proof. apply (runF_n None). left. reflexivity. Qed.
+
+  (* num_objective after a run is still compatible with the kind of the search: the next search on this evaluator may start *)
+  Lemma InvF_weak seen s : InvF seen s -> weakn k (nobj (fst s)).
+  Proof. intros [(_ & _ & _ & _ & H)|(_ & h & j0 & _ & _ & _ & _ & _ & H & _)]; [exact H|right; exact H]. Qed.
 End Faithful.
